@@ -117,6 +117,11 @@ type dataFamily struct {
 	lastFlushTime  int64
 	interval       timeutil.Interval
 	mutex          sync.Mutex
+	// replicaLock keeps Flush from freezing the memory database inside a replica step:
+	// a step holds the read lock from a successful ValidateSequence to CommitSequence,
+	// else its rows may land in an already flushed memory database(lost write),
+	// or be flushed with the previous sequence(written again after restart).
+	replicaLock sync.RWMutex
 }
 
 // newDataFamily creates a data family storage unit
@@ -268,11 +273,13 @@ func (f *dataFamily) Flush() error {
 
 		startTime := time.Now()
 
-		// add lock when switch memory database
+		// add lock when switch memory database, wait the replica step in flight
+		f.replicaLock.Lock()
 		f.mutex.Lock()
 		if f.immutableMemDB != nil || f.mutableMemDB == nil || f.mutableMemDB.NumOfSeries() == 0 {
 			// if immutable memory database not nil or no data need flush, return it
 			f.mutex.Unlock()
+			f.replicaLock.Unlock()
 			return nil
 		}
 		waitingFlushMemDB := f.mutableMemDB
@@ -286,6 +293,7 @@ func (f *dataFamily) Flush() error {
 		}
 		f.immutableSeq = immutableSeq
 		f.mutex.Unlock()
+		f.replicaLock.Unlock()
 
 		if err := f.flushMemoryDatabase(immutableSeq, waitingFlushMemDB); err != nil {
 			return err
@@ -554,11 +562,14 @@ func (f *dataFamily) WriteRows(rows []*metric.StorageRow) error {
 
 // ValidateSequence validates replica sequence if valid.
 func (f *dataFamily) ValidateSequence(leader int32, seq int64) bool {
+	// hold until CommitSequence if valid, see replicaLock
+	f.replicaLock.RLock()
 	f.mutex.Lock()
 	defer f.mutex.Unlock()
 
-	if seqForLeader, ok := f.seq[leader]; ok {
-		return seq > seqForLeader.Load()
+	if seqForLeader, ok := f.seq[leader]; ok && seq <= seqForLeader.Load() {
+		f.replicaLock.RUnlock()
+		return false
 	}
 	return true
 }
@@ -571,6 +582,8 @@ func (f *dataFamily) CommitSequence(leader int32, seq int64) {
 	seqForLeader := f.seq[leader]
 	seqForLeader.Store(seq)
 	f.seq[leader] = seqForLeader
+	// end of the replica step which was started by ValidateSequence
+	f.replicaLock.RUnlock()
 }
 
 // AckSequence acknowledges sequence after memory database flush successfully.
